@@ -36,6 +36,7 @@ import copy
 import itertools
 import json
 import os
+import re
 
 from . import common, seqx, tables
 from . import c19_core as core
@@ -43,7 +44,13 @@ from .c19_core import BODIES, CODES, DEFAULT, ALL_ON
 
 LEVEL = "model_checking"
 
-ENTRIES = ["S", "C0", "C1", "C2"]
+MODES = ("single", "exec")
+# a unit = something that is run and may own a cache entry: the script, or a (code string, mode) pair.
+# WHICH FILE holds a unit's entry is discovered by effect (core.Rig.discover); units that the
+# implementation maps to one file form ONE shared entry of the model (with text / mode / namespace
+# provenance), units with distinct files have distinct entries.  Nothing here knows the naming scheme.
+UNITS = ["S"] + [f"C{j}:{mode}" for j in range(len(CODES)) for mode in MODES]
+TEXT_PROV = re.compile(r"^[BC]\d+$")
 ALL_SW = [tuple(bool(b) for b in bits) for bits in itertools.product((1, 0), repeat=4)]
 CODE_SW_QUICK = [(True, False, True, False), (True, True, True, False), (True, False, True, True), (True, True, True, True)]
 
@@ -70,14 +77,15 @@ def mk_events(thorough):
                 evs.append(["code", j, mode, list(sw), "fresh"])
     for mode in ("single", "exec"):
         evs.append(["code", 0, mode, list(ALL_ON), "shadow"])
-    for name in ENTRIES:
+    for unit in UNITS:  # rewrite the header of the entry this unit uses (units sharing a file: offered once)
         for kind in ("xonsh", "py"):
-            evs.append(["hdr", name, kind])
+            evs.append(["hdr", unit, kind])
     evs += [["ro"], ["rw"], ["del"]]
     return evs
 
 
-INITIAL_MODEL = {"body": 0, "src": 10, "now": 10, "ro": False, "ent": {n: None for n in ENTRIES}}
+def _text_of(prov):
+    return BODIES[int(prov[1:])] if prov[0] == "B" else CODES[int(prov[1:])]
 
 
 class Harness:
@@ -88,9 +96,26 @@ class Harness:
         self.trail = []
         self._memo = {}
         self._pending = None
-        self.paths = {"S": self.rig.entry_path("script")}
-        for j, c in enumerate(CODES):
-            self.paths[f"C{j}"] = self.rig.entry_path("code", c)
+        rig = self.rig
+        rig.write_source(BODIES[0], 10)
+        rel = {}
+        for u in UNITS:
+            if u == "S":
+                rel[u] = rig.discover("script")
+            else:
+                j, mode = u[1:].split(":")
+                rel[u] = rig.discover("code", CODES[int(j)], mode)
+        self.entry_of = {}  # unit -> entry id (= the units sharing the file, joined in UNITS order)
+        self.paths = {}  # entry id -> absolute path in the data directory
+        self.units_of = {}
+        for u in UNITS:
+            us = [v for v in UNITS if rel[v] == rel[u]]
+            eid = "+".join(us)
+            self.entry_of[u] = eid
+            self.paths[eid] = os.path.join(rig.data, rel[u])
+            self.units_of[eid] = us
+        self.entries = list(self.paths)
+        self.initial = {"body": 0, "src": 10, "now": 10, "ro": False, "ent": {e: None for e in self.entries}}
         self.caps_ok = self.rig.caps_ok
 
     # ------------------------------------------------------------------ state (de)materialisation
@@ -132,7 +157,7 @@ class Harness:
             rig.make_readonly(rig.data)
 
     def reset(self):
-        self._restore((INITIAL_MODEL, {}))
+        self._restore((self.initial, {}))
         self.trail = []
 
     def canon(self):
@@ -140,19 +165,19 @@ class Harness:
         m = self.m
         out = [m["body"], m["now"] - m["src"], m["ro"]]
         known = set()
-        for name in ENTRIES:
+        for name in self.entries:
             p = self.paths[name]
             known.add(p)
             k = core.entry_kind(p)
             e = m["ent"][name]
             if k == "absent":
-                out.append(None)
+                out.append([name, None])
             elif e is None:
-                out.append([k, "unaccounted"])
-            elif name == "S":
-                out.append([k, m["src"] - e["tick"], e["prov"], e["ns"]])
+                out.append([name, k, "unaccounted"])
+            elif "S" in self.units_of[name]:
+                out.append([name, k, m["src"] - e["tick"], e["prov"], e["mode"], e["ns"]])
             else:
-                out.append([k, e["prov"], e["mode"], e["ns"]])
+                out.append([name, k, e["prov"], e["mode"], e["ns"]])
         extra = []
         for dp, _dns, fns in os.walk(self.rig.data):
             for n in fns:
@@ -165,14 +190,17 @@ class Harness:
         self._materialise()
         m = self.m
         out = []
+        offered = set()
         for ev in self.events:
             op = ev[0]
             if op == "edit" and ev[1] == m["body"]:
                 continue
             if op == "hdr":
-                e = m["ent"][ev[1]]
-                if e is None or e["prov"] == "foreign:" + ev[2] or core.entry_kind(self.paths[ev[1]]) == "absent":
+                eid = self.entry_of[ev[1]]
+                e = m["ent"][eid]
+                if (eid, ev[2]) in offered or e is None or e["prov"] == "foreign:" + ev[2] or core.entry_kind(self.paths[eid]) == "absent":
                     continue
+                offered.add((eid, ev[2]))
             if op == "ro" and m["ro"]:
                 continue
             if op == "rw" and not m["ro"]:
@@ -232,10 +260,10 @@ class Harness:
             return []
         if op == "del":
             rig.wipe(rig.data)
-            m["ent"] = {n: None for n in ENTRIES}
+            m["ent"] = {n: None for n in self.entries}
             return []
         if op == "hdr":
-            name, kind = ev[1], ev[2]
+            name, kind = self.entry_of[ev[1]], ev[2]
             p = self.paths[name]
             tick = rig.get_tick(p)
             with open(p, "wb") as f:
@@ -244,15 +272,16 @@ class Harness:
             m["ent"][name] = {"tick": m["ent"][name]["tick"], "prov": "foreign:" + kind, "ns": None, "mode": None}
             return []
         if op == "run":
-            kind, name, text, mode, sw, ns = "script", "S", rig.read_source(), "exec", _sw(ev[1]), ev[2]
-            prov = m["body"]
-            if text != BODIES[prov]:
+            kind, unit, text, mode, sw, ns = "script", "S", rig.read_source(), "exec", _sw(ev[1]), ev[2]
+            prov = f"B{m['body']}"
+            if text != BODIES[m["body"]]:
                 raise common.ToolError("source on disk is not the body the model believes")
         elif op == "code":
-            kind, name, text, mode, sw, ns = "code", f"C{ev[1]}", CODES[ev[1]], ev[2], _sw(ev[3]), ev[4]
-            prov = ev[1]
+            kind, unit, text, mode, sw, ns = "code", f"C{ev[1]}:{ev[2]}", CODES[ev[1]], ev[2], _sw(ev[3]), ev[4]
+            prov = f"C{ev[1]}"
         else:
             raise AssertionError(ev)
+        name = self.entry_of[unit]
         path = self.paths[name]
         pre_ent = copy.deepcopy(m["ent"][name])
         pre_kind = core.entry_kind(path)
@@ -268,7 +297,7 @@ class Harness:
                 continue
             if core.entry_kind(p) != "dir":
                 rig.set_tick(p, m["now"])
-            m["ent"][n] = {"tick": m["now"], "prov": prov if n == name else f"written-by-{name}", "ns": ns, "mode": mode}
+            m["ent"][n] = {"tick": m["now"], "prov": prov if n == name else f"written-by-{unit}", "ns": ns, "mode": mode}
         for dp, _dns, fns in os.walk(rig.data):  # anything else the run wrote also happened "now"
             for n in fns:
                 fp = os.path.join(dp, n)
@@ -276,30 +305,32 @@ class Harness:
                     rig.set_tick(fp, m["now"])
         if not check:
             return []
-        return self.judge(ev, kind, name, text, mode, sw, ns, pre_ent, pre_kind, obs)
+        return self.judge(ev, kind, name, prov, text, mode, sw, ns, pre_ent, pre_kind, obs)
 
     # ------------------------------------------------------------------ oracle
-    def judge(self, ev, kind, name, text, mode, sw, ns, ent, pre_kind, obs):
+    def judge(self, ev, kind, name, prov, text, mode, sw, ns, ent, pre_kind, obs):
         m, rig = self.m, self.rig
         exp = rig.reference(kind, text, ns, mode)
-        prov = m["body"] if kind == "script" else int(name[1:])
         fname = rig.SRC if kind == "script" else "<string>"
         viols = []
-        case = {"part": 1, "op": ev, "entry_before": ent, "entry_kind_before": pre_kind, "source_tick": m["src"], "readonly": m["ro"]}
+        case = {"part": 1, "op": ev, "entry": name, "entry_before": ent, "entry_kind_before": pre_kind, "source_tick": m["src"], "readonly": m["ro"]}
 
         def V(clause, key, observed, expected, note=""):
             viols.append({"key": key, "clause": clause, "case": dict(case), "observed": observed, "expected": expected, "note": note})
 
         ro = "+readonly-dir" if m["ro"] else ""
-        older_text = ent is not None and isinstance(ent["prov"], int) and ent["prov"] != prov
+        from_text = ent is not None and bool(TEXT_PROV.match(str(ent["prov"])))
+        older_text = from_text and ent["prov"] != prov
         if pre_kind == "absent":
             state = "no-entry"
         elif pre_kind in ("foreign-xonsh", "foreign-python", "damaged", "dir", "unreadable"):
             state = pre_kind
         elif kind == "script" and ent is not None and ent["tick"] < m["src"]:
             state = "older-entry"
-        elif older_text:
+        elif older_text and kind == "script":
             state = "not-older-entry-of-other-text"
+        elif older_text:
+            state = "entry-of-other-text"  # code strings must never share: judged in full
         else:
             state = "current-entry"
         if state == "not-older-entry-of-other-text":
@@ -315,11 +346,11 @@ class Harness:
                 state += ro
             elif core.FOREIGN_MARK in obs["stdout"]:
                 sig = "executed-foreign-entry"
-            elif ent is not None and isinstance(ent["prov"], int) and pre_kind == "ok":
+            elif from_text and pre_kind == "ok":
                 if older_text:
-                    old = rig.simulate(BODIES[ent["prov"]], fname, ent["ns"], ent["mode"], ns)
+                    old = rig.simulate(_text_of(ent["prov"]), fname, ent["ns"], ent["mode"], ns)
                     if core.same_outcome(obs, old):
-                        sig = "stale"
+                        sig = "stale" if kind == "script" and ent["prov"][0] == "B" else "ran-other-text"
                 elif ent["ns"] != ns or ent["mode"] != mode:
                     as_cached = rig.simulate(text, fname, ent["ns"], ent["mode"], ns)
                     if core.same_outcome(obs, as_cached):
@@ -332,7 +363,7 @@ class Harness:
                         else:
                             sig = "compiled-in-other-namespace-and-mode"
             if sig is None:
-                own = f"M{prov}" if kind == "script" else ("M1", "ka", "KA")[prov]
+                own = {"B0": "M0", "B1": "M1", "B2": "M2", "C0": "M1", "C1": "ka", "C2": "KA"}[prov]
                 others = core.foreign_markers(obs, own)
                 if others:
                     sig = "ran-other-text"
@@ -349,7 +380,7 @@ class Harness:
 
     def describe(self):
         self._materialise()
-        return {"model": self.m, "entries": {n: core.entry_kind(p) for n, p in self.paths.items()}}
+        return {"model": self.m, "entries_on_disk": {n: core.entry_kind(p) for n, p in self.paths.items()}}
 
 
 _THOROUGH = False
